@@ -579,11 +579,23 @@ class atom(boolean.AndRestriction):
 
         # Skip the (very common) case of one of us not having use deps:
         if self.use and other.use:
-            # Set of flags we do not have in common:
-            flags = set(self.use) ^ set(other.use)
-            for flag in flags:
-                # If this is unset and we also have the set version we fail:
-                if flag[0] == "-" and flag[1:] in flags:
+
+            def parse(use):
+                # flag -> (wanted state, state assumed if missing from IUSE)
+                d = {}
+                for x in use:
+                    default = None
+                    if x[-1] == ")":
+                        default, x = x[-2] == "+", x[:-3]
+                    d[x.lstrip("-")] = (x[0] != "-", default)
+                return d
+
+            ours, theirs = parse(self.use), parse(other.use)
+            for flag in ours.keys() & theirs.keys():
+                (want1, default1), (want2, default2) = ours[flag], theirs[flag]
+                # If we want opposite states only a package lacking the flag
+                # can match us both, each through its use dep default:
+                if want1 != want2 and (default1 != want1 or default2 != want2):
                     return False
 
         # Remaining thing to check is version restrictions. Get the
